@@ -17,6 +17,13 @@ Oracle (end to end): refurb is run on generated idiom programs (docstring "Bad" 
 lines with operands of every precedence class substituted); every back-quoted OLD fragment of every diagnostic is
 parsed and unified with the syntax tree of the source text at the reported span (`x y z ...` are wildcards), and
 every NEW fragment that is built only from quoted fragments must parse.
+Attribution: a violation is charged to recorded defects only on evidence.  `Twin` is a second implementation of
+refurb's printer over CPython's trees in which every recorded defect is a switch; the causes of a wrong fragment are
+the set D of switches that must be off for the twin to print exactly that fragment for the source (or, for fragments
+built around a substituted operand, for that operand, when putting the operand's faithful text there makes the
+fragment right).  One violation is reported per cause, so each is matched against its own finding; whatever no set of
+recorded defects explains is reported with cause `other`.  On every run the twin must also explain what refurb prints
+for every generated expression.
 """
 
 from __future__ import annotations
@@ -672,6 +679,12 @@ def correspondence(ctx) -> None:
             res.disagree("mypy cannot parse ppRef text", {"text": text}, "parses", repr(e))
             continue
         m = defs[0].expr
+        # the printer twin (used to attribute violations to recorded defects) must explain what refurb prints
+        d_ = explain(ast.parse(text, mode="eval").body, common.stringify(m))
+        if d_ is None:
+            res.disagree("printer twin vs refurb: no set of recorded defects explains the text", {"text": text}, Twin(frozenset()).top(ast.parse(text, mode="eval").body), common.stringify(m))
+        else:
+            res.bump("twin_explains")
         try:
             mj = mypy_to_node(m)
         except Unmodelled:
@@ -788,6 +801,327 @@ def witness_trees() -> list[dict[str, Any]]:
         N("member", e=N("int", v="1"), a=cps("real")),  # (1).real
         N("index", b=add, i=N("slice", b=None, e=None, s=None)),  # (a + b)[:]
     ]
+
+
+# --------------------------------------------------------------------------------------------
+# a twin of refurb's printer over CPython's trees, with every recorded defect as a switch
+#
+# `Twin(on).top(node)` prints a source tree by refurb's formatting rules; each element of `on` repairs one recorded
+# defect.  With all switches on the text parses back to the tree; the set D of switches that have to be OFF for the
+# twin to reproduce refurb's text names exactly the defects that text suffers from.  Attribution of a violation =
+# finding D (evidence), never guessing from the look of the message.
+
+SWITCH_CAUSE = {
+    "parens": "lost-parens",
+    "callee": "lost-parens:callee",
+    "braces": "fstring-braces",
+    "field": "fstring-field",
+    "conv": "fstring-desugared",
+    "slicetuple": "slice-in-tuple",
+    "intattr": "int-attribute",
+    "nonfinite": "nonfinite-literal",
+    "fake": "call-quoted-as-fstring",
+    "spec": "fstring-spec-unescaped",
+}
+ALL_SWITCHES = frozenset(SWITCH_CAUSE)
+BIN_PREC = {"or": 3, "and": 4, "|": 7, "^": 8, "&": 9, "<<": 10, ">>": 10, "+": 11, "-": 11, "*": 12, "/": 12, "//": 12, "%": 12, "@": 12, "**": 14}
+
+
+class Unprintable(Exception):
+    """refurb's ValueError"""
+
+
+def _strlit(v: str) -> str:
+    return '"' + repr(v)[1:-1].replace('"', '\\"') + '"'
+
+
+def _is_fake_format(n: Any) -> bool:
+    return (
+        isinstance(n, ast.Call)
+        and isinstance(n.func, ast.Attribute)
+        and n.func.attr == "format"
+        and isinstance(n.func.value, ast.Constant)
+        and n.func.value.value == "{:{}}"
+        and len(n.args) == 2
+        and not n.keywords
+        and not isinstance(n.args[0], ast.Starred)
+        and isinstance(n.args[1], ast.Constant)
+        and isinstance(n.args[1].value, str)
+    )
+
+
+def _simple_spec(spec: Any) -> str | None:
+    """the format spec as one constant string, if it is one (then mypy stores a StrExpr)"""
+    if spec is None:
+        return ""
+    if isinstance(spec, ast.Constant) and isinstance(spec.value, str):  # normalised by `_Norm`
+        return spec.value
+    if isinstance(spec, ast.JoinedStr) and all(isinstance(v, ast.Constant) for v in spec.values) and len(spec.values) <= 1:
+        return "".join(v.value for v in spec.values)  # type: ignore[attr-defined]
+    return None
+
+
+class Twin:
+    def __init__(self, on: frozenset[str] = ALL_SWITCHES):
+        self.on = on
+
+    # -- entry points -------------------------------------------------------------------------
+    def top(self, n: Any, level: int = 0) -> str:
+        """`stringify`: the placeholder instead of a failure"""
+        try:
+            return self.p(n, level)
+        except Unprintable:
+            return "x"
+
+    def p(self, n: Any, level: int = 0, sw: str = "parens") -> str:
+        """`_stringify` of a child in a position of the given level"""
+        text = self.inner(n)
+        return f"({text})" if sw in self.on and self.prec(n) < level else text
+
+    # -- precedence ---------------------------------------------------------------------------
+    def prec(self, n: Any) -> int:
+        if isinstance(n, ast.NamedExpr):
+            return 0
+        if isinstance(n, ast.Lambda):
+            return 1
+        if isinstance(n, ast.IfExp):
+            return 2
+        if isinstance(n, ast.BoolOp):
+            return 3 if isinstance(n.op, ast.Or) else 4
+        if isinstance(n, ast.UnaryOp):
+            return 5 if isinstance(n.op, ast.Not) else 13
+        if isinstance(n, ast.Compare):
+            return 6
+        if isinstance(n, ast.BinOp):
+            return BIN_PREC[AST_BIN[type(n.op)]]
+        if isinstance(n, ast.Await):
+            return 15
+        if isinstance(n, ast.Call):
+            return 17 if self.fake_parts(n) is not None and "fake" not in self.on else 16
+        if isinstance(n, (ast.Attribute, ast.Subscript)):
+            return 16
+        if isinstance(n, ast.JoinedStr):
+            return self.fstring2(n)[1]
+        return 17
+
+    # -- f-strings ----------------------------------------------------------------------------
+    def lit(self, v: str) -> str:
+        body = _strlit(v)[1:-1]
+        return body.replace("{", "{{").replace("}", "}}") if "braces" in self.on else body
+
+    def field(self, value: Any, fmt: str) -> str:
+        t = self.p(value, 3, "field")
+        if "field" in self.on and t.startswith("{"):
+            t = " " + t
+        return "{" + t + (":" + self.spec(fmt) if fmt else "") + "}"
+
+    def spec(self, fmt: str) -> str:
+        """refurb copies the value of a constant format spec into the text as it is (quotes, backslashes and all)"""
+        return _strlit(fmt)[1:-1] if "spec" in self.on else fmt
+
+    def proper(self, n: ast.JoinedStr) -> str:
+        """the f-string as an f-string, conversions and nested specs included (middle part, no quotes)"""
+        out = ""
+        for v in n.values:
+            if isinstance(v, ast.Constant):
+                out += self.lit(v.value)
+            else:
+                t = self.p(v.value, 3, "field")
+                if "field" in self.on and t.startswith("{"):
+                    t = " " + t
+                conv = "" if v.conversion < 0 else "!" + chr(v.conversion)
+                spec = ""
+                if v.format_spec is not None:
+                    s_ = _simple_spec(v.format_spec)
+                    spec = ":" + (self.spec(s_) if s_ is not None else self.proper(v.format_spec))  # type: ignore[arg-type]
+                out += "{" + t + conv + spec + "}"
+        return out
+
+    def fstring(self, n: ast.JoinedStr) -> str:
+        return self.fstring2(n)[0]
+
+    def fstring2(self, n: ast.JoinedStr) -> tuple[str, int]:
+        """text and precedence (an f-string is an atom; mypy's desugared form is a call)"""
+        parts = n.values
+        if not parts:
+            return '""', 17
+        recognised = [isinstance(v, ast.Constant) or (v.conversion < 0 and _simple_spec(v.format_spec) is not None) for v in parts]  # type: ignore[attr-defined]
+        if all(isinstance(v, ast.Constant) for v in parts):
+            return _strlit("".join(v.value for v in parts)), 17  # type: ignore[attr-defined]
+        if all(recognised):
+            return 'f"' + "".join(self.lit(v.value) if isinstance(v, ast.Constant) else self.field(v.value, _simple_spec(v.format_spec) or "") for v in parts) + '"', 17  # type: ignore[attr-defined]
+        if "conv" in self.on:
+            return 'f"' + self.proper(n) + '"', 17
+        # mypy's desugared form, as `_stringify` prints a call it does not recognise as an f-string
+        if len(parts) == 1:
+            return self.part_expr(parts[0]), 16
+        items = []
+        for v in parts:  # the items of the joined list go through `stringify`: a placeholder each
+            try:
+                items.append(self.part_expr(v))
+            except Unprintable:
+                items.append("x")
+        return (items[0] if len(items) == 1 else '"".join([' + ", ".join(items) + "])"), 16
+
+    def part_expr(self, v: Any) -> str:
+        if isinstance(v, ast.Constant):
+            return _strlit(v.value)
+        simple = _simple_spec(v.format_spec)
+        if v.conversion < 0 and simple is not None:
+            return 'f"' + self.field(v.value, simple) + '"'
+        conv = "" if v.conversion < 0 else "!" + chr(v.conversion)
+        if simple is not None:
+            spec = _strlit(simple)
+        else:
+            spec = self.fstring(v.format_spec)
+        return '"{' + conv + ':{}}".format(' + self.p(v.value, 0) + ", " + spec + ")"
+
+    def fake_parts(self, n: ast.Call) -> list[tuple[Any, str]] | None:
+        """a call the user wrote that has the shape of mypy's desugared f-string: [(literal | value, fmt)]"""
+        if _is_fake_format(n):
+            return [(n.args[0], n.args[1].value)]  # type: ignore[attr-defined]
+        f = n.func
+        if isinstance(f, ast.Attribute) and f.attr == "join" and isinstance(f.value, ast.Constant) and f.value.value == "" and len(n.args) == 1 and not n.keywords and isinstance(n.args[0], ast.List):
+            out: list[tuple[Any, str]] = []
+            had = False
+            for it in n.args[0].elts:
+                if isinstance(it, ast.Constant) and isinstance(it.value, str):
+                    out.append((it.value, ""))
+                elif isinstance(it, ast.Call) and (sub := self.fake_parts(it)) is not None:
+                    had = True
+                    out += sub
+                else:
+                    return None
+            return out if had else None
+        return None
+
+    # -- expressions --------------------------------------------------------------------------
+    def inner(self, n: Any) -> str:
+        if isinstance(n, ast.Expr):
+            return self.p(n.value, 1)
+        if isinstance(n, ast.Name):
+            return n.id
+        if isinstance(n, ast.Constant):
+            v = n.value
+            if v is True or v is False or v is None:
+                return str(v)
+            if isinstance(v, str):
+                return _strlit(v)
+            if isinstance(v, bytes):
+                return 'b"' + repr(v)[2:-1].replace('"', '\\"') + '"'
+            if isinstance(v, (float, complex)) and not isinstance(v, bool):
+                s = str(v)
+                return s.replace("inf", "1e999") if "nonfinite" in self.on else s
+            if isinstance(v, int):
+                return str(v)
+            raise Unprintable
+        if isinstance(n, ast.Attribute):
+            if isinstance(n.value, ast.Constant) and type(n.value.value) is int and "intattr" in self.on:
+                return f"({self.inner(n.value)}).{n.attr}"
+            return f"{self.p(n.value, 16)}.{n.attr}"
+        if isinstance(n, ast.Dict):
+            parts = [("**" + self.top(v, 7)) if k is None else f"{self.top(k, 1)}: {self.top(v, 1)}" for k, v in zip(n.keys, n.values)]
+            return "{" + ", ".join(parts) + "}"
+        if isinstance(n, ast.Tuple):
+            inner = ", ".join(self.top(x) for x in n.elts)
+            return "(" + inner + ("," if len(n.elts) == 1 else "") + ")"
+        if isinstance(n, ast.List):
+            return "[" + ", ".join(self.top(x) for x in n.elts) + "]"
+        if isinstance(n, ast.Set):
+            return "{" + ", ".join(self.top(x) for x in n.elts) + "}"
+        if isinstance(n, ast.Call):
+            fp = self.fake_parts(n)
+            if fp is not None and "fake" not in self.on:
+                return 'f"' + "".join(self.lit(a) if isinstance(a, str) else self.field(a, fmt) for a, fmt in fp) + '"'
+            args = [("*" + self.p(a.value, 1)) if isinstance(a, ast.Starred) else self.p(a, 0) for a in n.args]
+            args += [("**" + self.p(k.value, 1)) if k.arg is None else f"{k.arg}={self.p(k.value, 1)}" for k in n.keywords]
+            return f"{self.p(n.func, 16, 'callee')}({', '.join(args)})"
+        if isinstance(n, ast.Subscript):
+            idx = self.top(n.slice)
+            if "slicetuple" in self.on and idx != "x" and isinstance(n.slice, ast.Tuple) and any(isinstance(x, ast.Slice) for x in n.slice.elts):
+                idx = idx[1:-1]
+            return f"{self.top(n.value, 16)}[{idx}]"
+        if isinstance(n, ast.Slice):
+            b = self.top(n.lower, 1) if n.lower is not None else ""
+            e = self.top(n.upper, 1) if n.upper is not None else ""
+            s = ":" + self.top(n.step, 1) if n.step is not None else ""
+            return f"{b}:{e}{s}"
+        if isinstance(n, ast.BinOp):
+            op = AST_BIN[type(n.op)]
+            pr = BIN_PREC[op]
+            lhs, rhs = (15, 13) if op == "**" else (pr, pr + 1)
+            return f"{self.p(n.left, lhs)} {op} {self.p(n.right, rhs)}"
+        if isinstance(n, ast.BoolOp):
+            op = "or" if isinstance(n.op, ast.Or) else "and"
+            pr = BIN_PREC[op]
+            vals = [self.p(v, pr + 1) for v in n.values[:-1]] + [self.p(n.values[-1], pr)]
+            return f" {op} ".join(vals)
+        if isinstance(n, ast.Compare):
+            out = self.p(n.left, 7)
+            for o, c in zip(n.ops, n.comparators):
+                out += f" {AST_CMP[type(o)]} {self.p(c, 7)}"
+            return out
+        if isinstance(n, ast.UnaryOp):
+            if isinstance(n.op, ast.Not):
+                return "not " + self.p(n.operand, 5)
+            return AST_UN[type(n.op)] + self.p(n.operand, 13)
+        if isinstance(n, ast.Lambda):
+            a = n.args
+            if a.posonlyargs or a.defaults or a.vararg or a.kwonlyargs or a.kwarg:
+                raise Unprintable
+            names = ", ".join(x.arg for x in a.args)
+            return "lambda" + (" " + names if names else "") + ": " + self.p(n.body, 1)
+        if isinstance(n, ast.IfExp):
+            return f"{self.p(n.body, 3)} if {self.p(n.test, 3)} else {self.p(n.orelse, 1)}"
+        if isinstance(n, ast.Await):
+            return "await " + self.p(n.value, 16)
+        if isinstance(n, ast.NamedExpr):
+            return f"{self.p(n.target)} := {self.p(n.value, 1)}"
+        if isinstance(n, ast.JoinedStr):
+            return self.fstring(n)
+        # statements
+        if isinstance(n, ast.Assign) and len(n.targets) == 1:
+            return f"{self.top(n.targets[0])} = {self.top(n.value, 1)}"
+        if isinstance(n, ast.If) and len(n.body) == 1 and not n.orelse:
+            return f"if {self.p(n.test)}: {self.inner(n.body[0])}"
+        if isinstance(n, ast.For) and len(n.body) == 1 and not n.orelse:
+            return f"for {self.p(n.target)} in {self.p(n.iter, 1)}: {self.inner(n.body[0])}"
+        if isinstance(n, ast.Delete):
+            t = n.targets[0] if len(n.targets) == 1 else ast.Tuple(elts=n.targets)
+            return "del " + self.p(t)
+        raise Unprintable
+
+
+def applicable(n: Any) -> list[str]:
+    """the switches that make a difference for this tree"""
+    full, none = Twin(ALL_SWITCHES).top(n), Twin(frozenset()).top(n)
+    out = []
+    for s in sorted(ALL_SWITCHES):
+        if Twin(ALL_SWITCHES - {s}).top(n) != full or Twin(frozenset({s})).top(n) != none:
+            out.append(s)
+    return out
+
+
+def defect_sets(n: Any, limit: int = 6):
+    """(D, text refurb prints when exactly the defects D are present), fewest defects first"""
+    from itertools import combinations
+
+    app = applicable(n)
+    if len(app) > limit:
+        yield frozenset(), Twin(ALL_SWITCHES).top(n)
+        yield frozenset(app), Twin(ALL_SWITCHES - frozenset(app)).top(n)
+        return
+    for k in range(len(app) + 1):
+        for d in combinations(app, k):
+            yield frozenset(d), Twin(ALL_SWITCHES - frozenset(d)).top(n)
+
+
+def explain(n: Any, text: str) -> frozenset[str] | None:
+    """the defects whose presence makes the twin print `text` for the tree, or None"""
+    for d, t in defect_sets(n):
+        if t == text:
+            return d
+    return None
 
 
 # --------------------------------------------------------------------------------------------
@@ -1033,8 +1367,22 @@ def unify_list(ps: list[Any], ts: list[Any], binds: dict[str, str], lenient: boo
 
 
 def looks_schematic(frag: str) -> bool:
-    bare = re.sub(r"\"(?:\\.|[^\"\\])*\"|'(?:\\.|[^'\\])*'", '""', frag)  # placeholders are not inside string literals
-    return "..." in frag or bool(re.search(r"(?<![\w.])[xyz](?![\w])", bare))
+    """does the fragment contain a placeholder: `...`, or a bare name x/y/z (not inside a string literal)?"""
+    if "..." in frag:
+        return True
+    import io
+    import tokenize
+
+    try:
+        prev = ""
+        for t in tokenize.generate_tokens(io.StringIO(frag).readline):
+            if t.type == tokenize.NAME and t.string in WILD and prev != ".":
+                return True
+            prev = t.string
+        return False
+    except (tokenize.TokenError, SyntaxError, IndentationError):
+        bare = re.sub(r"\"(?:\\.|[^\"\\])*\"|'(?:\\.|[^'\\])*'", '""', frag)
+        return bool(re.search(r"(?<![\w.])[xyz](?![\w])", bare))
 
 
 class FileIndex:
@@ -1082,13 +1430,11 @@ class FileIndex:
         return getattr(par, f)[i:] if i is not None else [n]
 
 
-def check_old(kind: str, pat: Any, fi: FileIndex, e: dict[str, Any], lenient: bool) -> tuple[bool, str]:
-    """does the OLD pattern unify with the source at the span? -> (ok, description of the target used)"""
+def span_candidates(fi: FileIndex, e: dict[str, Any]) -> list[ast.AST]:
+    """the syntax nodes a diagnostic may be quoting: the node at the reported span, the expressions/statements that
+    enclose it (many checks report the position of a sub-expression of what they quote: the callee, an argument,
+    the right operand), and f-strings inside it (mypy gives the parts of an f-string the position of the whole)"""
     cands = list(fi.at(e)) or fi.starting_at(e) or fi.containing(e)
-    if not cands:
-        return False, "no syntax node at the reported span"
-    # many checks report the position of a sub-expression of what they quote (the callee, an argument, the right
-    # operand): the quoted code may be the node at the span or any expression/statement that encloses it
     seen = set(map(id, cands))
     for c in list(cands):
         while c in fi.parent:
@@ -1098,10 +1444,19 @@ def check_old(kind: str, pat: Any, fi: FileIndex, e: dict[str, Any], lenient: bo
             if id(c) not in seen:
                 seen.add(id(c))
                 cands.append(c)
-    # mypy gives the parts of an f-string the position of the whole literal: a quoted inner f-string is looked for
-    # inside the node at the span as well
     for c in list(cands[:2]):
-        cands += [d_ for d_ in list(ast.walk(c))[1:40] if isinstance(d_, ast.JoinedStr)]
+        inner = [d_ for d_ in list(ast.walk(c))[1:40] if isinstance(d_, ast.JoinedStr)]
+        cands += inner
+        for j_ in ([c] if isinstance(c, ast.JoinedStr) else []) + inner[:3]:
+            cands += [d_ for d_ in list(ast.walk(j_))[1:60] if isinstance(d_, ast.expr) and not isinstance(d_, (ast.JoinedStr, ast.FormattedValue)) and id(d_) not in seen]
+    return cands
+
+
+def check_old(kind: str, pat: Any, fi: FileIndex, e: dict[str, Any], lenient: bool) -> tuple[bool, str]:
+    """does the OLD pattern unify with the source at the span? -> (ok, description of the target used)"""
+    cands = span_candidates(fi, e)
+    if not cands:
+        return False, "no syntax node at the reported span"
     tried = []
     for t in cands:
         targets: list[tuple[Any, Any]] = []
@@ -1348,19 +1703,6 @@ def oracle(ctx) -> None:
                     lines.append(tmpl.format(e=e_))
             (d / f"c_{k // per_file:03d}.py").write_text("".join(lines))
         cfiles = sorted(p_.name for p_ in d.glob("c_*.py"))
-        # what the model says refurb prints for each carrier expression, and the reference text
-        cinfo: dict[str, tuple[str, str]] = {}
-        creq, ckeys = [], []
-        for e_ in list(exprs) + sorted({pl_["text"] for plan_ in variants.values() for pl_ in plan_}):
-            try:
-                creq.append({"verb": "ppref", "n": ast_to_node(ast.parse(e_, mode="eval").body)})
-                ckeys.append(e_)
-            except (SyntaxError, Unmodelled, KeyError, AttributeError, ValueError):
-                pass
-        if ctx.driver.available():
-            for k_, a_ in zip(ckeys, ctx.driver.batch(creq)):
-                if not a_.get("unmodelled"):
-                    cinfo[k_] = (uncps(a_["x"]) or "", uncps(a_["ppref"]) or "")
         errs2 = run_refurb_on(d, sorted(variants) + cfiles, per_batch=1)
         res.bump("baseline_diagnostics", n_base)
         # ---- variants
@@ -1382,7 +1724,7 @@ def oracle(ctx) -> None:
                     continue
                 hit += 1
                 res.bump("class_" + pl["class"])
-                judge(res, fi, e, hole=pl["hole"], opclass=pl["class"], origin=pl["origin"], base=pl["base"], operand=pl["text"], carrier=cinfo.get(pl["text"]))
+                judge(res, fi, e, hole=pl["hole"], opclass=pl["class"], origin=pl["origin"], base=pl["base"], operand=pl["text"])
             res.bump("variants_planned", len(plan))
             res.bump("variants_flagged", hit)
         for cf in cfiles:
@@ -1391,68 +1733,74 @@ def oracle(ctx) -> None:
             for e in errs2.get(cf, []):
                 if "msg" in e:
                     res.bump("carrier_diagnostics")
-                    judge(res, fi, e, hole="carrier", opclass="expr", origin=cf, carrier=cinfo.get(carrier_line.get((cf, e["line"]), "")))
+                    judge(res, fi, e, hole="carrier", opclass="expr", origin=cf, operand=carrier_line.get((cf, e["line"])))
                 elif "crash" in e:
                     res.notes.append(f"refurb crashed on carrier file {cf}: {e['crash'][:200]}")
 
 
-def _strip_outer_parens(t: str) -> str:
-    t = t.strip()
-    while t.startswith("(") and t.endswith(")"):
-        depth = 0
-        for k, ch in enumerate(t):
-            depth += ch == "("
-            depth -= ch == ")"
-            if depth == 0 and k < len(t) - 1:
-                return t
-        t = t[1:-1].strip()
-    return t
+def old_fragment_ok(frag: str, code: str, fi: FileIndex, e: dict[str, Any]) -> bool:
+    parsed = parse_fragment(frag, code)
+    if parsed is None:
+        return False
+    kind, pat = parsed
+    pat = _Norm().visit(pat) if isinstance(pat, ast.AST) else [_Norm().visit(p_) for p_ in pat]
+    return check_old(kind, pat, fi, e, lenient=False)[0] or (looks_schematic(frag) and check_old(kind, pat, fi, e, lenient=True)[0])
 
 
-def cause_of(code: str, msg: str, kind: str, frag: str, where: str, hole: str, opclass: str, operand: str | None, carrier: tuple[str, str] | None) -> str:
-    """What went wrong, from the message and the source (groups violations; `known_findings.json` matches on it).
-    `lost-parens` is only claimed on evidence: the quoted code equals the source up to parentheses, or putting the
-    operand back into parentheses makes the replacement parse."""
-    squash = lambda t: re.sub(r"[()\s]", "", t).replace("'", '"')  # noqa: E731
-    if "StrExpr(" in msg:
-        return "mypy-repr-in-message"
-    if code == "FURB156":
-        return "string-contents-quoted"
-    if re.search(r"(?<![\w.])(inf|nan|infj|nanj)(?![\w])", frag) and not re.search(r"(?<![\w.])(inf|nan)(?![\w])", where):
-        return "nonfinite-literal"
-    if (".format(" in frag or '"".join(' in frag) and re.search(r"\bf[\"']", where) and ".format(" not in where:
-        return "fstring-desugared"
-    if "{:{}}" in where and 'f"' in frag:
-        return "call-quoted-as-fstring"
-    if re.search(r"\bf[\"']", where) and frag.count("{{") < where.count("{{"):
-        return "fstring-braces"
-    if re.search(r"(?<![\w.])\d+\.[A-Za-z_]", frag) and re.search(r"\d\s*\)\s*\.", where):
-        return "int-attribute"
-    if re.search(r"\[\([^\]]*:", frag) and not re.search(r"\[\([^\]]*:", where):
-        return "slice-in-tuple"
-    if re.search(r"\bf[\"']", where) and re.search(r'f"[^"]*\{(\{|lambda\b|[^{}"]* if [^{}"]* else |[^{}"]*:=)', frag):
-        return "fstring-field"
-    callee = hole.endswith(".func") or opclass == "lambda_call" or bool(re.search(r"\)\s*\(", where) and not re.search(r"\)\s*\(", frag))
-    lost = "lost-parens:callee" if callee else "lost-parens"
+def causes_of(code: str, msg: str, kind: str, frag: str, fi: FileIndex, e: dict[str, Any], operand: str | None) -> list[str]:
+    """Which recorded defects explain a wrong fragment — by evidence only.
+
+    (1) The fragment is the text the printer twin gives for a source node at the span when exactly the defects D are
+        present (and no other set of switches gives it): the causes are D.
+    (2) Otherwise, for a fragment built around a substituted operand: the operand appears in the fragment as the
+        twin prints it under defects D, and putting the faithful text of the operand there (bare, or in parentheses
+        if the hole of the check's template needs them) makes the fragment right: the causes are D (+ lost parentheses).
+    Anything else is `other` — a real alarm."""
+    if "StrExpr(" in msg and "StrExpr(" not in stmt_source(fi, e):
+        return ["mypy-repr-in-message"]
+    cands = span_candidates(fi, e)
+    shown = lambda v: repr(v)[1:-1].replace("\\x0b", "\\v").replace("\\x0c", "\\f")  # noqa: E731  (what FURB156 prints)
+    if code == "FURB156" and any(isinstance(c, ast.Constant) and isinstance(c.value, str) and frag in (c.value, shown(c.value)) for c_ in cands for c in ast.walk(c_)):
+        return ["string-contents-quoted"]
     if kind.startswith("old"):
-        pieces = [p_ for p_ in re.split(r"\.\.\.|(?<![\w.\"])[xyz](?![\w\"])", squash(frag)) if p_]
-        hay, pos = squash(where), 0
-        for p_ in pieces:
-            pos = hay.find(p_, pos)
-            if pos < 0:
-                return "other"
-            pos += len(p_)
-        return lost if pieces else "other"
-    fixes = []
+        for t in cands:
+            if isinstance(t, (ast.expr, ast.stmt)):
+                d = explain(t, frag)
+                if d:
+                    return sorted(SWITCH_CAUSE[s_] for s_ in d)
     if operand:
-        bare = _strip_outer_parens(operand)
-        fixes.append((bare, "(" + bare + ")"))
-    if carrier:
-        fixes.append((carrier[0], "(" + carrier[1] + ")"))
-    for a, b in fixes:
-        if a and a in frag and parse_fragment(frag.replace(a, b), code) is not None:
-            return lost
-    return "other"
+        try:
+            op = _Norm().visit(ast.parse(operand.strip(), mode="eval").body)
+        except SyntaxError:
+            return ["other"]
+        subs = [op] + [n_ for n_ in list(ast.walk(op))[1:] if isinstance(n_, ast.expr) and not isinstance(n_, (ast.Name, ast.Constant, ast.Slice, ast.Starred))][:25]
+        for op_ in subs:
+            got = _explain_operand(op_, code, kind, frag, fi, e)
+            if got:
+                return got
+    return ["other"]
+
+
+def _explain_operand(op: Any, code: str, kind: str, frag: str, fi: FileIndex, e: dict[str, Any]) -> list[str] | None:
+    if True:
+        good = Twin(ALL_SWITCHES).top(op)
+        for d, r in defect_sets(op):
+            if not r or r == "x" or r not in frag or (d and r == good):
+                continue
+            at = frag.find(r)
+            reps = [(good, None)]
+            if good.startswith("{") and frag[at - 1 : at] == "{":
+                reps.append((" " + good, "fstring-field"))
+            callee = any(frag[m_.end() : m_.end() + 1] == "(" for m_ in re.finditer(re.escape(r), frag))
+            reps.append(("(" + good + ")", "lost-parens:callee" if callee else "lost-parens"))
+            for rep, extra in reps:
+                fixed = frag.replace(r, rep)
+                ok = old_fragment_ok(fixed, code, fi, e) if kind.startswith("old") else parse_fragment(fixed, code) is not None
+                if ok:
+                    out = {SWITCH_CAUSE[s_] for s_ in d} | ({extra} if extra else set())
+                    if out:
+                        return sorted(out)
+    return None
 
 
 def stmt_source(fi: FileIndex, e: dict[str, Any]) -> str:
@@ -1481,7 +1829,7 @@ def verdict(fi: FileIndex, e: dict[str, Any]) -> dict[str, Any]:
     return v
 
 
-def judge(res, fi: FileIndex, e: dict[str, Any], hole: str, opclass: str, origin: str, base: dict[str, Any] | None = None, operand: str | None = None, carrier: tuple[str, str] | None = None) -> dict[str, Any]:
+def judge(res, fi: FileIndex, e: dict[str, Any], hole: str, opclass: str, origin: str, base: dict[str, Any] | None = None, operand: str | None = None) -> dict[str, Any]:
     """report what the property demands of one diagnostic.  Concrete fragments (no placeholder) are judged
     absolutely; schematic ones (`x`, `y`, `z`, `...`) only relative to the unmodified idiom they were derived
     from (`base`): a pattern that matched the plain idiom must still match after an operand was substituted"""
@@ -1492,28 +1840,29 @@ def judge(res, fi: FileIndex, e: dict[str, Any], hole: str, opclass: str, origin
     where = stmt_source(fi, e)
 
     def report(kind: str, what: str, frag: str, extra: dict[str, Any] | None = None) -> None:
-        sig = {"kind": kind, "check": code, "hole": hole, "operand_class": opclass, "cause": cause_of(code, msg, kind, frag, where, hole, opclass, operand, carrier)}
-        res.bump("cause_" + sig["cause"])
-        if sig["cause"] != "other":
-            # one root cause shows in hundreds of (check, hole, operand) combinations: a few replays each are enough
-            seen_ = REPORTED.setdefault(sig["cause"], set())
-            if (code, kind) in seen_ or len({c_ for c_, _ in seen_}) >= 4 and code not in {c_ for c_, _ in seen_}:
-                res.bump("violations_same_cause_not_repeated")
-                return
-            seen_.add((code, kind))
-        res.violate(
-            f"{code} {what}: `{frag}` for the source `{where.strip()[:160]}`",
-            sig,
-            {
-                "source_line": where,
-                "built_from": origin,
-                "argv": ["FILE", "--enable-all", "--quiet"],
-                "observed": msg,
-                "required": what,
-                "span": [e["line"], e["col"], e["line_end"], e["col_end"]],
-                **(extra or {}),
-            },
-        )
+        for cause in causes_of(code, msg, kind, frag, fi, e, operand):
+            sig = {"kind": kind, "check": code, "hole": hole, "operand_class": opclass, "cause": cause}
+            res.bump("cause_" + cause)
+            if cause != "other":
+                # one root cause shows in hundreds of (check, hole, operand) combinations: a few replays each are enough
+                seen_ = REPORTED.setdefault(cause, set())
+                if (code, kind) in seen_ or len({c_ for c_, _ in seen_}) >= 4 and code not in {c_ for c_, _ in seen_}:
+                    res.bump("violations_same_cause_not_repeated")
+                    continue
+                seen_.add((code, kind))
+            res.violate(
+                f"{code} {what} [{cause}]: `{frag}` for the source `{where.strip()[:160]}`",
+                sig,
+                {
+                    "source_line": where,
+                    "built_from": origin,
+                    "argv": ["FILE", "--enable-all", "--quiet"],
+                    "observed": msg,
+                    "required": what,
+                    "span": [e["line"], e["col"], e["line_end"], e["col_end"]],
+                    **(extra or {}),
+                },
+            )
 
     if v["old"] is not None:
         judged = (not v["old_schematic"]) or (base is not None and base.get("old_ok"))
@@ -1591,6 +1940,7 @@ def templates_correspondence(ctx) -> None:
     res.distribution["checks_with_templates"] = sorted(by_check)
     reqs: list[dict[str, Any]] = []
     meta: list[tuple[dict[str, Any], int, str, int]] = []  # (seen entry, template idx, role, group)
+    bound_nodes: dict[int, list[Any]] = {}
     group = 0
     for sn in SEEN:
         code = sn["e"]["code"]
@@ -1609,9 +1959,10 @@ def templates_correspondence(ctx) -> None:
                 if id(c) not in seen_ids:
                     seen_ids.add(id(c))
                     cands.append(c)
-        # mypy gives the parts of an f-string the position of the whole literal: look inside as well
+        # a check may also fire on a sub-expression of the flagged operand (mypy gives the parts of an f-string the
+        # position of the whole literal; carriers hold whole expressions): any binding that reproduces the text counts
         for c in list(cands[:2]):
-            cands += [d_ for d_ in list(ast.walk(c))[1:40] if isinstance(d_, ast.JoinedStr)]
+            cands += [d_ for d_ in list(ast.walk(c))[1:80] if isinstance(d_, ast.expr) and id(d_) not in seen_ids]
         found = False
         for c in cands:
             if isinstance(c, ast.Expr):
@@ -1628,6 +1979,7 @@ def templates_correspondence(ctx) -> None:
                     sigma = [binds.get(i, name("h")) for i in range(max(binds, default=-1) + 1)]
                     reqs.append({"verb": "template_fill", "id": idx, "sigma": sigma})
                     meta.append((sn, idx, "old", group))
+                    bound_nodes.setdefault(group, []).append(c)
                     for idx2, _t2 in by_check[code].get("new", []):
                         reqs.append({"verb": "template_fill", "id": idx2, "sigma": sigma})
                         meta.append((sn, idx2, "new", group))
@@ -1652,6 +2004,10 @@ def templates_correspondence(ctx) -> None:
         mo = next(((idx, a) for idx, a in olds_ if uncps(a["text"]) == actual_old), None)
         mn = next(((idx, a) for idx, a in news_ if actual_news and uncps(a["text"]) == actual_news[0]), None)
         res.case(("template", e["code"], actual_old, tuple(actual_news)))
+        if mo is None and not any(explain(c_, actual_old) is not None for c_ in bound_nodes.get(g, [])):
+            # the message is about a node none of the table's shapes matches (e.g. `not in [..]` for FURB171)
+            res.bump("template_shape_not_in_table")
+            continue
         if mo is None:
             res.disagree("message template (old) vs refurb", {"check": e["code"], "source": stmt_source(sn["fi"], e)}, [uncps(a["text"]) for _, a in olds_], actual_old)
             continue
@@ -1715,6 +2071,7 @@ def run(ctx) -> None:
         "lexical level: that `render` of a literal token lexes back to the same value (escapes via repr) is validated against CPython on every generated text, not proved",
         "whole-tree placeholder theorem: `placeholder_sites` is the one-step statement per `stringify` site",
         "templates of checks not in Model `templates` (the table covers 29 checks) are covered by the oracle only",
+        "the printer twin (harness, Python) that attributes violations to recorded causes is validated against refurb on every generated expression, not proved; a wrong attribution can only turn a known finding into an alarm or the reverse for texts the twin reproduces exactly",
     ]
     res.trusted_extra += [
         "harness/props/c02.py: ast_to_node / mypy_to_node (tree converters), the unifier of quoted fragments with source trees, the operand substitution",
